@@ -12,6 +12,7 @@ import Driver.Registry
 import Driver.Tls
 import Driver.KeepAlive
 import Driver.SubClient
+import Driver.Replier
 
 /-! `drv`: one case per input line, one result per output line (see /verif/DESIGN.md, section 3.2). -/
 
@@ -31,6 +32,7 @@ def step (line : String) : String :=
   | "rqcut" :: rest => Driver.ReqClient.runCut rest
   | "rqreuse" :: rest => Driver.ReqClient.runReuse rest
   | "ppraw" :: rest => Driver.SubClient.run rest
+  | "rp" :: rest => Driver.Replier.run rest
   | "pp" :: rest => Driver.PubClient.run rest
   | "ppx" :: rest => Driver.PubClient.run rest
   | "tn" :: rest => Driver.Topic.run "tn" rest
